@@ -679,8 +679,10 @@ def check (ps : PState) (evLine : String) (obs : List String) (fault : Option St
     return (own, fs)
   -- a Modification Request whose Node ID is the one the session already belongs to takes nothing over (an SMF may always
   -- send its own Node ID): only a different node id is a takeover
+  -- (once a real takeover has happened the node objects no longer follow the requests — known finding takeoverNode — and a
+  --  Node ID equal to the owner by the requests may still rename an object: from then on every such request counts)
   let isTakeover := typ == "recv" && kind == "mod" && lookD m "node" "-" != "-" && !isDup && (prev.live seid).isSome &&
-    (ps.own.find? (·.1 == seid)).map (·.2) != some (lookD m "node" "-")
+    (ps.hadTakeover || (ps.own.find? (·.1 == seid)).map (·.2) != some (lookD m "node" "-"))
   -- sessions whose node object has surely not been renamed by somebody else's takeover: a takeover (the mechanism renames
   -- the whole node object — known finding takeoverNode, C05) leaves only the session taken over; sessions established
   -- later are added again
